@@ -224,10 +224,10 @@ class Attribute(_BaseAttribute):
                 # provided number of element do not match elemsize
                 raise Attribute.InvalidSizeError(n,self.elemsize)
         
-            datatype = type(data[0])
-            data_attr_type = Attribute.Type(datatype)  
-            if not self._can_be_casted(data_attr_type, self.type):
-                raise Attribute.TypeNotMatchingError(data, datatype, self.type)
+            for datatype in {type(x) for x in data}: # every component, not only the first
+                data_attr_type = Attribute.Type(datatype)
+                if not self._can_be_casted(data_attr_type, self.type):
+                    raise Attribute.TypeNotMatchingError(data, datatype, self.type)
             self._data[key] = Vec(data)
         
         else:
@@ -307,10 +307,10 @@ class ArrayAttribute(_BaseAttribute):
                 # provided number of element do not match elemsize
                 raise Attribute.InvalidSizeError(n,self.elemsize)
         
-            datatype = type(data[0])
-            data_attr_type = Attribute.Type(datatype)  
-            if not self._can_be_casted(data_attr_type, self.type):
-                raise Attribute.TypeNotMatchingError(data, datatype, self.type)
+            for datatype in {type(x) for x in data}: # every component, not only the first
+                data_attr_type = Attribute.Type(datatype)
+                if not self._can_be_casted(data_attr_type, self.type):
+                    raise Attribute.TypeNotMatchingError(data, datatype, self.type)
             self._data[key] = Vec(data)
         
         else:
